@@ -5,6 +5,7 @@ import (
 	"context"
 	"encoding/json"
 	"fmt"
+	"io"
 	"os"
 	"os/exec"
 	"path/filepath"
@@ -37,9 +38,25 @@ type cliCase struct {
 	ViaFile bool      `json:"via_file"`
 	Stdout  string    `json:"stdout"` // pipe | closed | full
 	Pre     []FSEntry `json:"pre,omitempty"`
-	Expect  string    `json:"expect_stage,omitempty"` // usage | opts | open ; empty: decided by the library
-	FileAt  string    `json:"file_at,omitempty"`      // where (relative to the jail) the document is written; the --file argument is part of Args
-	Decoy   string    `json:"decoy_at,omitempty"`     // another document, at the place a lexical clean of the --file argument would name
+	Expect  string    `json:"expect_stage,omitempty"`   // usage | opts | open ; empty: decided by the library
+	FileAt  string    `json:"file_at,omitempty"`        // where (relative to the jail) the document is written; the --file argument is part of Args
+	Decoy   string    `json:"decoy_at,omitempty"`       // another document, at the place a lexical clean of the --file argument would name
+	SlowMS  int       `json:"stdin_delay_ms,omitempty"` // stdin delivers nothing for this long, then the document
+}
+
+// delayedReader delivers nothing for a while, then the data (somebody typing, a slow producer at the other end of the pipe).
+type delayedReader struct {
+	delay time.Duration
+	r     io.Reader
+	slept bool
+}
+
+func (d *delayedReader) Read(p []byte) (int, error) {
+	if !d.slept {
+		d.slept = true
+		time.Sleep(d.delay)
+	}
+	return d.r.Read(p)
 }
 
 var cliBin string
@@ -66,6 +83,10 @@ type cliRun struct {
 }
 
 func execCli(bin string, dir string, args []string, stdin []byte, stdoutMode string) cliRun {
+	return execCliSlow(bin, dir, args, stdin, stdoutMode, 0)
+}
+
+func execCliSlow(bin string, dir string, args []string, stdin []byte, stdoutMode string, stdinDelay time.Duration) cliRun {
 	ctx, cancel := context.WithTimeout(context.Background(), 20*time.Second)
 	defer cancel()
 	var cmd *exec.Cmd
@@ -82,6 +103,9 @@ func execCli(bin string, dir string, args []string, stdin []byte, stdoutMode str
 	cmd.Dir = dir
 	cmd.Env = append(os.Environ(), "NO_COLOR=1")
 	cmd.Stdin = bytes.NewReader(stdin)
+	if stdinDelay > 0 {
+		cmd.Stdin = &delayedReader{delay: stdinDelay, r: bytes.NewReader(stdin)}
+	}
 	var so, se bytes.Buffer
 	cmd.Stderr = &se
 	switch stdoutMode {
@@ -146,16 +170,19 @@ func runCli(m *Model, bin string, c cliCase) []Diff {
 	target := ""
 	var exts []string
 	massive := false
+	var timeout time.Duration
 	format := ""
 	for i := 0; i < len(c.Args); i++ {
 		switch c.Args[i] {
 		case "--format":
 			format = c.Args[i+1]
 			i++
-		case "--massive":
+		case "--massive", "-m":
 			massive = true
-		case "--massive-timeout":
+		case "--massive-timeout", "--mt":
 			massive = true // a (positive) timeout alone selects the massive mode
+			// with or without --massive the corresponding library option is WithMassive(a context with this timeout)
+			timeout, _ = time.ParseDuration(c.Args[i+1])
 			i++
 		case "--dry-run", "-d":
 			dry = true
@@ -169,7 +196,7 @@ func runCli(m *Model, bin string, c cliCase) []Diff {
 			i++
 		}
 	}
-	r := execCli(bin, jail, args, stdin, c.Stdout)
+	r := execCliSlow(bin, jail, args, stdin, c.Stdout, time.Duration(c.SlowMS)*time.Millisecond)
 	var d []Diff
 	if r.crashed {
 		return []Diff{{What: "the CLI crashed", Real: fmt.Sprintf("exit %d stderr %s", r.code, r.stderr), Model: "never a crash"}}
@@ -179,14 +206,24 @@ func runCli(m *Model, bin string, c cliCase) []Diff {
 	var libErr error
 	if stage == "" {
 		if massive {
-			opts = append(opts, gtree.WithMassive(context.Background()))
+			mctx := context.Background()
+			if timeout > 0 {
+				var cancel context.CancelFunc
+				mctx, cancel = context.WithTimeout(mctx, timeout)
+				defer cancel()
+			}
+			opts = append(opts, gtree.WithMassive(mctx))
 		}
 		switch c.Sub {
 		case "output":
 			if format != "" {
 				opts = append(opts, encodeOpt(format))
 			}
-			libErr = gtree.OutputFromMarkdown(&libOut, bytes.NewReader(doc), opts...)
+			var in io.Reader = bytes.NewReader(doc)
+			if c.SlowMS > 0 {
+				in = &delayedReader{delay: time.Duration(c.SlowMS) * time.Millisecond, r: bytes.NewReader(doc)}
+			}
+			libErr = gtree.OutputFromMarkdown(&libOut, in, opts...)
 		case "mkdir":
 			opts = append(opts, gtree.WithTargetDir(filepath.Join(twin, target)), gtree.WithFileExtensions(exts))
 			if target == "" {
@@ -255,6 +292,24 @@ func runCli(m *Model, bin string, c cliCase) []Diff {
 		}
 		if !(massive && libErr != nil) && rel(jail) != rel(twin) {
 			d = append(d, Diff{What: "file-system effect differs from the library's", Real: rel(jail), Model: rel(twin)})
+		}
+	}
+	if len(d) > 0 && massive && c.Expect == "" {
+		// The comparison takes the library's answer for the corresponding options as determined. With the massive
+		// option it is not for three classes of documents (known findings of C10 / C02: the verdict depends on which
+		// worker parses which block first), and the command-line process and this process need not meet the same
+		// schedule. Such a document says nothing about the front end.
+		simpleErr := gtree.OutputFromMarkdown(io.Discard, bytes.NewReader(doc))
+		switch {
+		case listRootBeforeHeading(doc):
+			noteKnown("c10.list-roots-before-heading-roots")
+			return nil
+		case mixesIndentChars(doc):
+			noteKnown("c10.indent-char-switch-between-roots")
+			return nil
+		case wrongCharRow(doc, simpleErr):
+			noteKnown("c10.massive-accepts-wrong-indent-char")
+			return nil
 		}
 	}
 	return d
@@ -335,6 +390,29 @@ func runC16(ctx *Ctx) *Report {
 		cliCase{Kind: "cli", Sub: "template", Args: []string{"stray"}, Doc: "-", Stdout: "pipe", Expect: "usage"},
 		cliCase{Kind: "cli", Sub: "mkdir", Args: []string{"--massive"}, Doc: d0, Stdout: "pipe", Expect: "usage"},
 	)
+	// --massive together with --massive-timeout (in both orders, long and short names): the corresponding library
+	// option is WithMassive(a context with that timeout), so a timeout that has passed – one that is over before the
+	// pipeline starts, or one that ends while stdin has delivered nothing yet – is a failure with the diagnostic;
+	// either flag alone as before; a generous timeout changes nothing
+	{
+		tdocs := []string{docs[0], docs[1], docs[9], "- a\n", docs[10], ""}
+		for di, doc := range tdocs {
+			short := []string{"1ns", "7ns", fmt.Sprintf("%dns", 1+ctx.Rng.Intn(300))}[di%3]
+			for ai, ta := range [][]string{
+				{"--massive", "--massive-timeout", short}, {"-m", "--mt", short}, {"--mt", short, "-m"}, {"--massive-timeout", short, "--massive", "--format", "json"},
+				{"--massive-timeout", short}, {"--mt", short, "--format", "yaml"},
+				{"-m", "--mt", "1h"}, {"--massive", "--massive-timeout", "10m", "--format", "json"}, {"--mt", "1h"}, {"-m"},
+			} {
+				if !ctx.Thorough && di > 2 && ai%2 == 1 {
+					continue
+				}
+				cases = append(cases, cliCase{Kind: "cli", Sub: "output", Args: ta, Doc: hxs(doc), Text: doc, ViaFile: (di+ai)%3 == 0, Stdout: "pipe"})
+			}
+		}
+		for _, ta := range [][]string{{"-m", "--mt", "100ms"}, {"--massive-timeout", "100ms", "--massive"}, {"--mt", "100ms"}, {"-m"}, {"--mt", "1m", "-m"}, nil} {
+			cases = append(cases, cliCase{Kind: "cli", Sub: "output", Args: ta, Doc: hxs(docs[0]), Text: docs[0], Stdout: "pipe", SlowMS: 1200 + ctx.Rng.Intn(500)})
+		}
+	}
 	// --file names the file as the OS resolves it: through a symbolic link to a directory and back up is another
 	// file than the lexically cleaned path
 	for _, sa := range [][]string{{"output"}, {"output", "--format", "json"}, {"mkdir", "--target-dir", "t"}, {"mkdir", "--dry-run"}, {"verify", "--target-dir", "t"}} {
@@ -354,7 +432,7 @@ func runC16(ctx *Ctx) *Report {
 	// seeded stream: random forests in random notations, sometimes with a random edit, through random
 	// subcommands and flag combinations, with some of the tree already on disk
 	{
-		outArgs := [][]string{nil, {"--format", "json"}, {"--format", "yaml"}, {"--massive"}, {"--massive", "--format", "json"}, {"--massive-timeout", "1m"}}
+		outArgs := [][]string{nil, {"--format", "json"}, {"--format", "yaml"}, {"--massive"}, {"--massive", "--format", "json"}, {"--massive-timeout", "1m"}, {"--massive", "--massive-timeout", "1m"}, {"-m", "--mt", "2ns"}, {"--mt", "3ns", "--format", "json"}}
 		mkArgs := [][]string{{"--target-dir", "t"}, {"--target-dir", "t", "-e", ".go", "-e", "Makefile"}, {"--target-dir", "t", "--dry-run"}, {"--target-dir", "t", "-d", "-e", ".md"}, {"--target-dir", "t/nested/deeper", "-e", ".go"}}
 		vfArgs := [][]string{{"--target-dir", "t"}, {"--target-dir", "t", "--strict"}}
 		alphabet := []byte(" \t-*+#x\n")
@@ -410,5 +488,10 @@ func runC16(ctx *Ctx) *Report {
 		diffs = append(diffs, Diff{What: "template | output", Real: fmt.Sprintf("exit %d/%d: %s", t.code, o.code, o.stdout), Model: sampleTree})
 	}
 	rep.Record(map[string]string{"kind": "template-pipe"}, "template-pipe", true, diffs)
+	knownHits.Lock()
+	for k, v := range knownHits.m {
+		rep.Known[k] += v
+	}
+	knownHits.Unlock()
 	return rep
 }
